@@ -23,7 +23,9 @@ LITS = {
     "date": ["2020-01-01", "1999-12-31", "2024-02-29", "9999-12-31", "1000-01-01"],
     "time": ["00:00:00", "23:59:59", "12:30:15.250", "01:02:03.123456"],
     "datetime": ["2020-01-01T00:00:00", "2020-01-01T10:20:30Z", "1999-12-31T23:59:59.999+01:00",
-                 "2021-06-15T12:00", "2021-06-15T12:00:00-05:30", "2020-02-29T00:00:00.5Z"],
+                 "2021-06-15T12:00", "2021-06-15T12:00:00-05:30", "2020-02-29T00:00:00.5Z",
+                 "2020-01-01T10:00:00+00:00", "2020-01-01T10:00:00-00:00", "2020-01-01T10:00+00:00",
+                 "2020-01-01T10:00:00.000Z", "2020-01-01T10:00:00+14:00", "2020-01-01T00:00:00-12:00"],
     "duration": ["P1D", "PT1S", "P1Y2M3DT4H5M6S", "-P3D", "+PT0.5S", "P365DT12H1M1.1S",
                  "PT12H", "P2M", "P1Y"],
     "geo": ["POINT(1 2)", "SRID=4326;POINT(5.5 50.1)", "a''b", "''", "O''Neil POINT(0 0)",
@@ -51,6 +53,7 @@ class Opts:
         self.named = True
         self.max_named = 5
         self.deep_lambda_owner = True  # lambda owner paths with 3+ segments
+        self.ns_lambda_vars = True     # any(ns.x: ...)
         self.max_path = 4
         self.lit_kinds = list(LITS) + ["str"]
         self.strings = STRINGS
@@ -131,6 +134,12 @@ def gen_lambda(rng, o, depth):
         return ("lam", owner, "any", None, None)
     var = rng.choice(VARS)
     quant = "any" if r < 0.6 else "all"
+    if o.namespaces and o.ns_lambda_vars and rng.random() < 0.05:
+        # the variable itself may be namespace-qualified (ns.x: ns.x/a eq 1)
+        ns = rng.choice(NAMESPACES)
+        body = gen_expr(rng, o, depth - 1, var=None)
+        inner = ("cmp", "eq", ("attr", ("id", var, ns), rng.choice(ATTRS)), T.I(1))
+        return ("lam", owner, quant, ".".join(ns + (var,)), ("bool", "and", inner, body))
     body = gen_expr(rng, o, depth - 1, var=var)
     return ("lam", owner, quant, var, body)
 
